@@ -6,8 +6,6 @@
 pub(crate) mod stubs;
 #[cfg(all(kani, feature = "c14"))]
 mod c14;
-#[cfg(all(kani, feature = "c15"))]
-mod c15;
 #[cfg(all(kani, feature = "c25"))]
 mod c25;
 #[cfg(all(kani, feature = "c56"))]
